@@ -670,12 +670,7 @@ impl Rasn {
                     .options
                     .iter()
                     .map(|o| {
-                        let (_, formatted_type_name) = self.constraints_and_type_name(
-                            &o.ty,
-                            &o.name,
-                            &name.to_string(),
-                            o.is_recursive,
-                        )?;
+                        let formatted_type_name = self.choice_option_type(o, &name.to_string())?;
 
                         let o_name = self.to_rust_enum_identifier(&o.name);
                         map.entry(formatted_type_name.to_string())
